@@ -172,7 +172,42 @@ func (g *c09gen) lunarArgs() []int {
 	return []int{y, m, d, h, mi, s}
 }
 
+// term puts some of the moment-taking calls exactly on (or a second beside) a solar-term instant of their year.
+func (g *c09gen) term(op ops.Op) ops.Op {
+	switch op.K {
+	case "solar", "solar2lunar", "eightchar", "yun", "yunobj", "dayun", "solar_next":
+	default:
+		return op
+	}
+	p := 0.07
+	if g.focus == "fortune" || g.focus == "solar" {
+		p = 0.22
+	}
+	return g.termP(op, p)
+}
+
+func (g *c09gen) termP(op ops.Op, p float64) ops.Op {
+	switch op.K {
+	case "solar", "solar2lunar", "eightchar", "yun", "yunobj", "dayun", "solar_next":
+	default:
+		return op
+	}
+	if len(op.A) < 6 || !g.r.Chance(p) {
+		return op
+	}
+	y := op.A[0]
+	if y < 1600 || y > 9000 {
+		y = g.r.Range(1900, 2100)
+	}
+	op.J = []int{y, g.r.Intn(24), g.r.Pick([]int{0, 0, 0, 0, 1, -1, 2, -2, 60, -60, 3600, -3600})}
+	return op
+}
+
 func (g *c09gen) baseOp() ops.Op {
+	return g.term(g.baseOp0())
+}
+
+func (g *c09gen) baseOp0() ops.Op {
 	r := g.r
 	kinds := []string{"solar2lunar", "lunar", "lunar_next", "lyear", "lyear_next", "lmonth_next", "ltime", "tao", "foto", "eightchar", "yun",
 		"bazi", "holiday", "holidays_ym", "holidays_year", "holidays_target", "solar_next", "salary", "week", "smonth", "season", "halfyear", "syear", "jd2solar", "solar", "lmonth",
@@ -486,6 +521,12 @@ func (g *c09gen) wrap(op ops.Op) ops.Op {
 
 // DictYears are integer constants between 1 and 9999 found in the library's own tables (leap-month tables and the
 // like): the years at which the code itself behaves specially. The driver extracts them from /repo's working tree.
+// NamedZones: process-local zones with rules the fixed offsets do not have - clock changes on Sundays (New York, London),
+// on any weekday (Tehran until 2022), at midnight (Sao Paulo, Cairo, Havana), by 30 minutes (Lord Howe), a calendar day
+// that never happened (Apia, 2011-12-30), odd offsets (St Johns, Kathmandu, Kolkata), +14 (Kiritimati), no rules (Shanghai).
+var NamedZones = []string{"America/New_York", "Europe/London", "Asia/Tehran", "Asia/Tehran", "Australia/Lord_Howe", "America/Sao_Paulo", "Africa/Cairo",
+	"Pacific/Apia", "America/Havana", "Asia/Shanghai", "Asia/Kolkata", "Pacific/Kiritimati", "America/St_Johns", "Asia/Kathmandu"}
+
 var DictYears []int
 
 // DictBounds are the integer constants that the library compares a value with (comparison operands and case labels):
@@ -553,6 +594,9 @@ func C09(seed uint64, run int) *spec.Spec {
 	cy := r.Range(1970, 2100)
 	s.Clock = spec.Clock{Now: time.Date(cy, time.Month(r.Range(2, 11)), r.Range(1, 28), r.Intn(24), r.Intn(60), r.Intn(60), 0, time.UTC).Format(time.RFC3339Nano),
 		ZoneS: r.Range(-12, 14) * 3600, TickNs: 1000000}
+	if r.Chance(0.12) {
+		s.Clock.Zone = r.PickS(NamedZones)
+	}
 
 	big := (Tier == "thorough" && r.Chance(0.25)) || (Tier != "thorough" && r.Chance(0.06))
 	nTasks := 1
@@ -698,7 +742,7 @@ func C09(seed uint64, run int) *spec.Spec {
 		nPub := r.Range(1, 3)
 		for p := 0; p < nPub; p++ {
 			var ctor ops.Op
-			switch r.Weighted([]int{36, 18, 8, 10, 6, 6, 4, 3, 3, 3, 2, 2, 2, 2, 2}) {
+			switch r.Weighted([]int{36, 18, 8, 10, 6, 6, 4, 3, 3, 5, 4, 2, 2, 2, 2}) {
 			case 0:
 				ctor = ops.Op{K: "solar2lunar", A: g.solarArgs()}
 			case 1:
@@ -750,6 +794,7 @@ func C09(seed uint64, run int) *spec.Spec {
 				}
 				ctor = ops.Op{K: "lmonth_next", A: []int{y, r.Range(1, 12), r.Range(-2, 2)}}
 			}
+			ctor = g.termP(ctor, 0.25)
 			cu := g.add(ctor)
 			pt := r.Intn(nTasks)
 			pos := r.Intn(len(s.Tasks[pt].Ops)/2 + 1)
